@@ -211,7 +211,8 @@ impl Mul for &LazyBigint {
             ),
             (LazyBigint::Short(s), LazyBigint::Long(b))
             | (LazyBigint::Long(b), LazyBigint::Short(s)) => {
-                LazyBigint::Long(assert_is_long(b * s))
+                // 2**63 * -1 fits the small form again
+                LazyBigint::from(b * s)
             }
             (LazyBigint::Long(b0), LazyBigint::Long(b1)) => {
                 LazyBigint::Long(assert_is_long(b0 * b1))
@@ -459,9 +460,9 @@ impl Pow<Self> for LazyBigint {
                 )
             }
             (Self::Short(s), Self::Long(b)) => {
-                Self::Long(BigInt::from(s).pow(BigUint::try_from(b).unwrap()))
+                Self::from(BigInt::from(s).pow(BigUint::try_from(b).unwrap()))
             }
-            (Self::Long(b), Self::Short(s)) => Self::Long(b.pow(BigUint::try_from(s).unwrap())),
+            (Self::Long(b), Self::Short(s)) => Self::from(b.pow(BigUint::try_from(s).unwrap())),
             (Self::Long(b0), Self::Long(b1)) => Self::Long(b0.pow(BigUint::try_from(b1).unwrap())),
         }
     }
